@@ -25,7 +25,7 @@ Chars(tok) == CASE tok = "r" -> <<"r">> [] tok = "rr" -> <<"r", "r">> [] tok = "
                 [] tok = "x" -> <<"x">> [] tok = "x_v1" -> <<"x", "_", "v", "1">> [] tok = "in" -> <<"i", "n">>
                 [] OTHER -> <<tok>>                     \* delimiters are single characters
 Idents == {"r", "rr", "r_in", "m_in", "m_in2", "x", "x_v1", "in"}
-Delims == {"+", "*", "(", ")", "=", " ", "-"}
+Delims == {"+", "*", "(", ")", "=", " ", "-", "/", "^", "<", ">", "!", ".", "%", "@", "[", "]", ":", ","}     \* the delimiter set of parser.replace
 NewTok == "Q"
 RECURSIVE Flat(_)
 Flat(toks) == IF toks = <<>> THEN <<>> ELSE Chars(Head(toks)) \o Flat(Tail(toks))
